@@ -7,6 +7,7 @@
    (smallm), dropd the test of remove_duplicates (small, |x| < zero_tol); both are abstract
    predicates here, so the theorems hold for every tolerance and every commutative ring. *)
 From Raptor Require Import Base.Sums Sparse.Defs Sparse.ConvertProofs Sparse.Spgemm Sparse.SpgemmProofs.
+From Raptor Require Import Dist.Comm Dist.ParSpgemmPkg.
 From Raptor Require Import Dist.ParSpgemm Dist.ParSpgemmProofs.
 
 Section C06.
@@ -148,6 +149,39 @@ Proof.
   - apply (par_mult_wf F zero one add mul sub opp Fth); assumption.
 Qed.
 
+(* the hypothesis on `fetch` above is what the matrix row exchange delivers: the exchange is the forward exchange of
+   the communication package with payload "row", natural in its payload, so for every package that passes the id
+   check of C03 (fwd_ok) every requested row arrives as its owner holds it *)
+Theorem C06_row_exchange_delivers_owner_rows (w : world) (ids colmaps : list (list nat)) (big : nat)
+        (B : csr F) (pk pc : list nat) r k :
+  fwd_ok w ids colmaps big = true -> length (csr_rows B) <= big -> r < length w ->
+  In k (nth r colmaps []) ->
+  fetch_pkg F w ids colmaps B pk pc r k = owner_row F B pk pc k.
+Proof. exact (fetch_pkg_delivers F w ids colmaps big B pk pc r k). Qed.
+
+(* ... composed: the distributed product computed through any such package *)
+Theorem C06_par_mult_through_package (w : world) (ids colmaps : list (list nat)) (big : nat)
+        (A B : csr F) (pa pk pc : list nat) :
+  csr_wf A -> csr_wf B -> csr_nc A = csr_nr B -> psum pa = csr_nr A ->
+  fwd_ok w ids colmaps big = true -> length (csr_rows B) <= big ->
+  (forall r k, needs F A pa pk r k = true -> r < length w /\ In k (nth r colmaps [])) ->
+  let C := par_mult F zero add mul smallm small (fetch_pkg F w ids colmaps B pk pc) A B pa pk pc in
+  (forall i j, i < csr_nr A ->
+     denCsr C i j =
+     dropD (add
+       (dropM (sumF (map (fun k => if inblk pk (owner pa i) k then mul (denCsr A i k) (denCsr B k j) else zero)
+                         (seq 0 (csr_nc A)))))
+       (dropM (sumF (map (fun k => if negb (inblk pk (owner pa i) k) then mul (denCsr A i k) (denCsr B k j) else zero)
+                         (seq 0 (csr_nc A))))))) /\
+  csr_nr C = csr_nr A /\ csr_nc C = csr_nc B /\ csr_wf C.
+Proof.
+  intros HA HB Hc Hp Hok Hbig Hneed.
+  apply C06_par_mult; try assumption.
+  intros r k Hn. destruct (Hneed r k Hn) as [Hr Hk].
+  apply (fetch_pkg_delivers F w ids colmaps big B pk pc r k Hok Hbig Hr Hk).
+Qed.
+
+
 (* ... which is exactly A B when no partial sum is small but non-zero; always so for integer data *)
 Theorem C06_par_mult_exact_on_integers (isint : F -> Prop) fetch (A B : csr F) (pa pk pc : list nat) i j :
   isint zero -> (forall x y, isint x -> isint y -> isint (add x y)) ->
@@ -277,3 +311,5 @@ Print Assumptions C06_par_mult_exact_on_integers.
 Print Assumptions C06_par_mult_T.
 Print Assumptions C06_par_mult_T_exact_on_integers.
 Print Assumptions C06_par_galerkin_exact_on_integers.
+Print Assumptions C06_row_exchange_delivers_owner_rows.
+Print Assumptions C06_par_mult_through_package.
